@@ -281,3 +281,24 @@ def run(ctx):
         ctx.ob('ZERO-ALLOC', g.name, not bad and (bool(al) or bool(via)), g.loc(bad[0]) if bad else g.loc(g.body), '%s allocates with %s' % (g.name, sorted({c['callee'] for c in al + via}) or 'nothing recognisable') +
                ('' if not bad else ': the block is not zeroed — bytes the caller never sets (padding after a string terminator, unused table slots) reach the file with whatever the heap held before'), None)
     ctx.require(nza >= 6, 'only %d allocator helpers found' % nza)
+
+    ctx.rule('DIAG-CLEAR', 'psf_open_file, the common tail of sf_open / sf_open_fd / sf_open_virtual, clears the process-wide diagnostics before it can succeed: an assignment of 0 to sf_errno and a '
+             'store of 0 into sf_parselog [0] dominate its success return (`return (SNDFILE *) psf`): what sf_error (NULL) / sf_strerror (NULL) report after a successful open must not depend '
+             'on an earlier failed open of another file', floor=2)
+    of = prog.fn('psf_open_file', 'sndfile.c')
+    succ = [n for n in of.walk() if n['k'] == 'ReturnStmt' and n.get('kids') and of.unwrap(of.N[n['kids'][0]]).get('v') is None and 'psf' in of.s(of.N[n['kids'][0]])]
+    ctx.require(succ, 'psf_open_file: success return not found')
+    from engine.util import assigned_lvalues as _al19
+    for var in ('sf_errno', 'sf_parselog[0]'):
+        clears = []
+        for lv, a, r in _al19(of):
+            if lv != var or r is None or a.get('op') != '=':
+                continue
+            ru = of.unwrap(r)
+            while ru.get('k') == 'BinaryOperator' and ru.get('op') == '=':      # sf_errno = error = 0
+                ru = of.unwrap(of.N[ru['kids'][1]])
+            if ru.get('v') == 0:
+                clears.append(a)
+        ok = bool(clears) and all(any(of.cfg.dominates(c_, s_) for c_ in clears) for s_ in succ)
+        ctx.ob('DIAG-CLEAR', 'psf_open_file:%s' % var, ok, of.loc(clears[0]) if clears else of.loc(succ[0]), ('%s is cleared at %s, which dominates the success return' % (var, of.loc(clears[0]))) if ok else
+               '%s is not cleared on every path to the success return: after a failed open of one file, a successful open of another leaves the old error visible through sf_error (NULL)' % var, None)
